@@ -41,6 +41,7 @@ class ProtoGhost:
         self.multi_caller = False
         self.delays = []            # (site, delay value, callback)
         self.suspensions = []       # hooks run at every suspension point: f(ex, what)
+        self.on_tx = []             # hooks run at every transmission: f(ex, transport, payload)
         self.lock_events = []
 
 
@@ -81,7 +82,7 @@ class GLoop:
         ex.new_object(h)
         g.armed = _inc(g.armed, 1)
         g.delays.append(("call_later", delay, cb))
-        g.events.append(("call_later", delay, cb))
+        g.events.append(("call_later", delay, cb, h))
         return h
 
     def call_soon(self, cb, *args):
@@ -116,7 +117,7 @@ class GConnect:
             raise PyRaise(OSError("connect failed"))
         if k == 2:
             raise PyRaise(ConnectionRefusedError("connection refused"))
-        t = GTransport(self.kind)
+        t = GTransport(self.kind, False, g.loop)
         ex.new_object(t)
         g.open.append(t)
         proto = ex.call(self.factory, [], {})
@@ -128,9 +129,10 @@ class GConnect:
 class GTransport:
     _pyvc_model = True
 
-    def __init__(self, kind, closing=False):
+    def __init__(self, kind, closing=False, loop=None):
         self.kind = kind
         self.closing = closing
+        self.loop = loop            # the event loop the transport was created on
 
     def is_closing(self):
         return self.closing
@@ -150,6 +152,8 @@ class GTransport:
         g.tx = _inc(g.tx, 1)
         g.tx_log.append(payload)
         g.events.append(("tx", payload))
+        for hook in g.on_tx:
+            hook(ex, self, payload)
 
     def sendto(self, payload, addr=None):
         self._send(payload)
@@ -308,7 +312,7 @@ class GLock:
             l = ex.branch(l.t, tag="lock.locked")
         if not l:
             raise PyRaise(RuntimeError("Lock is not acquired."))
-        g.lock_events.append(("release", self, self.owner))
+        g.lock_events.append(("release", self, self.owner, g.me))
         self.is_locked = False
         self.owner = 0
 
@@ -329,6 +333,8 @@ class GAcquire:
         if not free or g.multi_caller:
             # T4: acquire() on a free lock with no waiters completes without suspending
             suspend(ex, ("lock", self.lock))
+            if ex.choose(2, tag="cancelled.while.queued") == 1:
+                raise PyRaise(asyncio.CancelledError())
         # resumes when the lock is free (T4: only a holder releases; waiters are served in turn)
         self.lock.is_locked = True
         self.lock.owner = g.me
